@@ -7,7 +7,7 @@ from . import C10, common
 
 META = {
     'design_ref': 'DESIGN.md §5 C05',
-    'technique': "shape-case abstract interpretation of set/remove on both paragraph implementations and of the final-newline helper; __setitem__ and set_field_to_simple_value interpreted on symbolic strings by cases (F / F\\n / F\\nR\\n / F\\nR') against the specified calls; set_field_from_raw_string unfolded into paths (helpers inlined): per-line acceptance as regular languages, validate-before-commit on every committing path; comment hand-over by object identity; line-primitive rule; capture agreement of the field-line regex with the Policy 5.1 field-name language",
+    'technique': "shape-case abstract interpretation of set/remove on both paragraph implementations and of the final-newline helper; __setitem__ and set_field_to_simple_value interpreted on symbolic strings by cases (F / F\\n / F\\nR\\n / F\\nR') against the specified calls; set_field_from_raw_string unfolded into paths (helpers inlined): per-line acceptance as regular languages, validate-before-commit on every committing path; comment hand-over by object identity; line-primitive rule; capture agreement of the field-line regex with the Policy 5.1 field-name language; frame obligation on the final-newline helper chain (nothing but the missing line end changes), interpreted on lines with every part present",
     'level_text': 'Static decision of the structural conditions for locality: a new field is placed last only after the last field was '
                   'terminated, the terminating newline goes to the last line of the last field and nowhere else, a replacement never moves '
                   'or touches other fields, deletion unlinks exactly the addressed occurrences, a value is routed to the single-line path '
@@ -56,7 +56,15 @@ def r1b_helper(rep, src):
             for j in range(2):
                 terminated = not (i == len(names) - 1 and j == 1)
                 nl = heap.alloc('Deb822NewlineAfterValueToken', {'text': '\n', 'parent_element': None}) if terminated else None
-                lines.append(heap.alloc('Deb822ValueLineElement', {'_newline_token': nl, '_parent_element': None}, name='@line_%s%d' % (k.cls, j)))
+                # (every part of a line is there, so that a helper that touches more than the line end is seen: the line keeps its
+                # comment, its continuation marker, the blanks around the value and the value)
+                tw = heap.alloc('Deb822WhitespaceToken', {'text': '  ', 'parent_element': None}, name='@trail_%s%d' % (k.cls, j))
+                lw = heap.alloc('Deb822WhitespaceToken', {'text': ' ', 'parent_element': None}, name='@lead_%s%d' % (k.cls, j))
+                vt = heap.alloc('Deb822ValueToken', {'text': 'v', 'parent_element': None}, name='@value_%s%d' % (k.cls, j))
+                ct = heap.alloc('Deb822ValueContinuationToken', {'text': ' ', 'parent_element': None}, name='@cont_%s%d' % (k.cls, j)) if j else None
+                lines.append(heap.alloc('Deb822ValueLineElement', {'_newline_token': nl, '_parent_element': None, '_comment_element': None, '_continuation_line_token': ct,
+                                                                   '_leading_whitespace_token': lw, '_value_tokens': heap.new_list([vt]), '_trailing_whitespace_token': tw},
+                                        name='@line_%s%d' % (k.cls, j)))
             ve = heap.alloc('Deb822ValueElement', {'_value_entry_elements': heap.new_list(lines), '_parent_element': None}, name='@val_%s' % k.cls)
             kv = heap.alloc('Deb822KeyValuePairElement', {'field_name': k, 'value_element': ve, '_parent_element': None, 'parent_element': None},
                             name='@kv_%s' % k.cls)
@@ -85,6 +93,7 @@ def r1b_helper(rep, src):
         it = H.Interp(heap)
         what = 'final-newline helper on %s with fields [A B C], last line of C unterminated' % cname
         before = {ln.name: heap.objs[ln.name]['_newline_token'] for ls in lines_of.values() for ln in ls}
+        everything = {nm: {k_: (list(v_) if isinstance(v_, list) else v_) for k_, v_ in o_.items()} for nm, o_ in heap.objs.items()}
         try:
             it.call(H.Closure(fn.node, {}, para, fn.cls), [])
         except H.Raised as x:
@@ -92,7 +101,13 @@ def r1b_helper(rep, src):
             continue
         after = {ln.name: heap.objs[ln.name]['_newline_token'] for ls in lines_of.values() for ln in ls}
         changed = sorted(n for n in after if after[n] != before[n])
-        if changed == ['@line_c1'] and after['@line_c1'] is not None:
+        other = sorted('%s.%s' % (nm, k_) for nm, o_ in everything.items() for k_ in set(o_) | set(heap.objs.get(nm, {}))
+                       if not (nm == '@line_c1' and k_ == '_newline_token') and k_ not in ('_parent_element', 'parent_element')
+                       and (heap.objs.get(nm, {}).get(k_) if not isinstance(heap.objs.get(nm, {}).get(k_), list) else list(heap.objs[nm][k_])) != o_.get(k_))
+        if changed == ['@line_c1'] and after['@line_c1'] is not None and other:
+            rep.fail('C05.R1', fn.site, what, 'supplying the missing line end also changes %s: the one permitted side effect is the newline itself -- bytes in front of the new field '
+                     '(the blanks at the end of "Section: misc  ", a comment, the value) change' % ', '.join(other[:4]), where=fn.where)
+        elif changed == ['@line_c1'] and after['@line_c1'] is not None:
             rep.ok('C05.R1', fn.site, what, 'only the last line of the last field receives a newline token')
         elif not changed:
             rep.fail('C05.R1', fn.site, what, 'the unterminated last field is left as it is (the helper looks at another field): a field placed after it is '
